@@ -309,8 +309,12 @@ func runC07(c *Ctx, r *Report) {
 	r.Rule("C01.R7", "(shared) control objects are never stored as values (a control object in a container panics in Cmp)")
 	c.checkControlObjects(r, "C01.R7")
 
+	// shared C08.R8
+	r.Rule("C08.R8", "(shared) a parsed tree is evaluated only after both parser verdicts (errors, continuation request) were found clear: a tree with missing nodes is a nil dereference in the evaluator")
+	c.checkParserVerdicts(r, "C08.R8")
+
 	// ---- R9 ----
-	r.Rule("C07.R9", "fixed-capacity containers: the length fields of SmallArray, SmallMap and the register file (and Register.Idx) stay within the capacity of the array they index (every store through a pointer is proven within the limit; a local copy may exceed it transiently but not where the value leaves the function), and every index and slice bound into a fixed-size array of packages object and eval is proven within the array from those invariants, dominating comparisons, loop-edge facts, callers' arguments and callees' results; 6 relational sites are named abstentions")
+	r.Rule("C07.R9", "fixed-capacity containers: the length fields of SmallArray, SmallMap and the register file (and Register.Idx) stay within the capacity of the array they index (every store through a pointer is proven within the limit; a local copy may exceed it transiently but not where the value leaves the function), and every index and slice bound into a fixed-size array of packages object and eval is proven within the array from those invariants, dominating comparisons, loop-edge facts, callers' arguments and callees' results, with a difference-constraint prover (relbound.go) for what needs a relation between two values; 3 sites in SmallMap.Range are named abstentions")
 	c.checkBoundedContainers(r, "C07.R9", map[string]bool{"eval": true, "object": true})
 
 	// ---- R10 ----
